@@ -21,10 +21,20 @@ def commonprefix(paths):
     split = [i.split() for i in paths]
     lo, hi = min(split), max(split)
 
+    def make(bits, directory):
+        prefix = cls.sep.join(bits)
+        if paths[0].root == Root.absolute:
+            if not bits:
+                # Different drives (or a drive vs. none): nothing in common.
+                return None
+            elif len(bits) == 1:
+                prefix += cls.sep
+        return cls(prefix, paths[0].root, directory=directory)
+
     for i, bit in enumerate(lo):
         if bit != hi[i]:
-            return cls(cls.sep.join(lo[:i]), paths[0].root, directory=True)
-    return cls(cls.sep.join(lo), paths[0].root, directory=(lo != hi))
+            return make(lo[:i], True)
+    return make(lo, True if lo != hi else None)
 
 
 def uniquetrees(paths):
